@@ -147,6 +147,15 @@ static std::string run(const std::string &line)
       worlds[slot] = std::unique_ptr<World>(new World(file, false, "", seed));
       return "ok";
     }
+  if (cmd == "copy")
+    {
+      // copy <from> <to>: rewrite a world file between two constructions (the same path then holds different worlds in turn)
+      std::string a, b; in >> a >> b;
+      std::ifstream src(a, std::ios::binary);
+      std::ofstream dst(b, std::ios::binary | std::ios::trunc);
+      dst << src.rdbuf();
+      return "ok";
+    }
   if (cmd == "culling")
     {
       // culling 0 : worlds constructed from now on have the slab/fault shortcuts switched off (hook)
